@@ -74,6 +74,7 @@ type codecExec struct {
 	earlyZeroReturn []string // reader: symbols X with `if X == 0 { return ok }`
 	retSym  string
 	depth   int
+	loopCounts []string
 }
 
 func (x *codecExec) problem(pos token.Pos, format string, a ...any) {
@@ -270,6 +271,20 @@ func (x *codecExec) ioCall(call *ast.CallExpr, assignLHS []ast.Expr) (toks []cod
 			lenOf = "fixed:" + sym
 		}
 		return []codecTok{{kind: "bytes", sym: sym, lenOf: lenOf}}, true
+	case pkg == tpkg && name == "readBytesControl" && len(call.Args) >= 2:
+		if !x.isStreamArg(call.Args[0]) {
+			x.problem(call.Pos(), "read on something other than the record's stream")
+		}
+		x.nread++
+		sym := fmt.Sprintf("B%d", x.nread)
+		size := x.eval(call.Args[1])
+		x.sizes[sym] = size
+		if len(assignLHS) > 0 {
+			if o := ObjOf(x.info, assignLHS[0]); o != nil {
+				x.env[o] = sym
+			}
+		}
+		return []codecTok{{kind: "bytes", sym: sym, lenOf: size}}, true
 	case pkg == tpkg && name == "readFullControl":
 		if !x.isStreamArg(call.Args[0]) {
 			x.problem(call.Pos(), "read on something other than the record's stream")
@@ -413,6 +428,15 @@ func (x *codecExec) call(call *ast.CallExpr, lhs []ast.Expr) []codecTok {
 
 func (x *codecExec) assign(lhs ast.Expr, rhs ast.Expr) {
 	l := ast.Unparen(lhs)
+	if call, ok := ast.Unparen(rhs).(*ast.CallExpr); ok && len(call.Args) == 2 {
+		if id, ok := ast.Unparen(call.Fun).(*ast.Ident); ok && id.Name == "append" && ObjOf(x.info, l) != nil && ObjOf(x.info, l) == ObjOf(x.info, call.Args[0]) {
+			el := x.eval(call.Args[1])
+			if strings.HasPrefix(el, "elem(slice(") && strings.HasSuffix(el, "))") && len(x.loopCounts) > 0 {
+				x.env[ObjOf(x.info, l)] = strings.TrimSuffix(strings.TrimPrefix(el, "elem("), ")")
+				return
+			}
+		}
+	}
 	if o := ObjOf(x.info, l); o != nil && !x.msgObjs[o] {
 		v := x.eval(rhs)
 		if strings.HasPrefix(v, "make(") {
@@ -476,7 +500,16 @@ func (x *codecExec) stmt(st ast.Stmt) []codecTok {
 			for i, nm := range vs.Names {
 				o := x.info.Defs[nm]
 				if !x.writer && x.isMessageType(o.Type()) && len(vs.Values) == 0 {
-					x.msgObjs[o] = true
+					if x.isResultType(o.Type()) && len(x.loopCounts) == 0 {
+						x.msgObjs[o] = true
+					} else {
+						// a record element filled inside a loop and appended to a slice
+						x.nread++
+						x.env[o] = fmt.Sprintf("elem(slice(%d))", x.nread)
+						if len(x.loopCounts) > 0 {
+							x.sizes[fmt.Sprintf("slice(%d)", x.nread)] = x.loopCounts[len(x.loopCounts)-1]
+						}
+					}
 					continue
 				}
 				if i < len(vs.Values) {
@@ -612,7 +645,9 @@ func (x *codecExec) stmt(st ast.Stmt) []codecTok {
 		if _, ok := s.Post.(*ast.IncDecStmt); !ok {
 			count = "?"
 		}
+		x.loopCounts = append(x.loopCounts, count)
 		body := x.block(s.Body.List)
+		x.loopCounts = x.loopCounts[:len(x.loopCounts)-1]
 		return []codecTok{{kind: "repeat", cond: count, body: body}}
 	case *ast.BlockStmt:
 		return x.block(s.List)
@@ -622,6 +657,14 @@ func (x *codecExec) stmt(st ast.Stmt) []codecTok {
 		}
 	}
 	return nil
+}
+
+func (x *codecExec) isResultType(t types.Type) bool {
+	if x.f.Type.Results == nil || len(x.f.Type.Results.List) == 0 {
+		return true
+	}
+	rt := x.info.TypeOf(x.f.Type.Results.List[0].Type)
+	return rt != nil && types.Identical(rt, t)
 }
 
 func (x *codecExec) isMessageType(t types.Type) bool {
@@ -1091,6 +1134,25 @@ func runCodec(c *Ctx) {
 		c.Check(ok, "primitive/readFullControl", f.Pos(), "reads exactly len(buf) bytes via io.ReadFull", "readFullControl does not use io.ReadFull: a short read would desynchronise the frame")
 	} else {
 		c.MissingAnchor("transfer.readFullControl")
+	}
+	if f := p.Func("transfer.readBytesControl"); f != nil {
+		lim, cmp := false, false
+		ast.Inspect(f.Body, func(n ast.Node) bool {
+			switch v := n.(type) {
+			case *ast.CallExpr:
+				if calleeIs(f.Info(), v, "io", "ReadAll") && len(v.Args) == 1 {
+					if in, ok := ast.Unparen(v.Args[0]).(*ast.CallExpr); ok && calleeIs(f.Info(), in, "io", "LimitReader") {
+						lim = true
+					}
+				}
+			case *ast.BinaryExpr:
+				if v.Op == token.NEQ && strings.Contains(types.ExprString(v.X), "len(") {
+					cmp = true
+				}
+			}
+			return true
+		})
+		c.Check(lim && cmp, "primitive/readBytesControl", f.Pos(), "reads through io.LimitReader and rejects a short read", "readBytesControl does not read exactly n bytes (LimitReader + length check)")
 	}
 	if f := p.Func("transfer.writeFullControl"); f != nil {
 		loop := false
